@@ -22,7 +22,7 @@
   Round 3 (Model/RatfunFmt.lean; names / operators / indices from Generated/RatfunFmtSrc.lean):
 
     rf.fmt dtb | mtbsrc          … | F                       divide / multiply top and bottom by the polynomial F
-    rf.fmt asnd_monic | expandcanonical_src | simplify_factors | simplify_terms | expand_response   …
+    rf.fmt canonical_br | canonical_fc_br | asnd_monic | expandcanonical_src | simplify_factors | simplify_terms | expand_response   …
     rf.fmt recippartfrac         … | Q | r p o …            partial fractions in 1/var (data of the reciprocal function)
     rf.fmt rationalize           …                           complex coefficients, REAL point
     rf.recip      | B | A                                    ->  B' | A'   (coefficients of the function of 1/var)
@@ -165,6 +165,8 @@ def fmtExpr (name : String) (R : RF CQ) (extra : List (List String)) : Option (R
   | "simplify_factors", [] => simplifyFactors sfInit sfFrom sfOp id (rfFactors R)
   | "simplify_terms", [] => simplifyTerms stInit stOp id (rfTerms R R.B 0)
   | "expand_response", [] => some (expandResponse R)
+  | "canonical_fc_br", [] => some (canonicalBr (sgn canonicalFCSign) true canonFCSkip canonFCUndefAt R)
+  | "canonical_br", [] => some (canonicalBr (sgn canonicalSign) false canonSkip canonUndefAt R)
   | _, _ => none
 
 def cqRe (c : CQ) : CQ := ⟨c.v.map (fun p => (p.1, 0))⟩
